@@ -369,6 +369,28 @@ def part_nesting(ctx: Ctx) -> Result:
         if len(got_funcs) != 3 or any(g is not w for g, w in zip(got_funcs, want_funcs)):
             res.violate(Violation(ID, "spurious-or-misattributed", "state-carried-between-sessions", {"part": "n", "order": [0, 1], "mod": 0, "call": -2, "k": k}, f"second tracing session after importlib.reload: traces attributed to {[getattr(g, '__qualname__', g) for g in got_funcs]} objects that are {'not ' if any(g is not w for g, w in zip(got_funcs, want_funcs)) else ''}the reloaded functions"))
         res.oblige("n:two-sessions-with-reload", True)
+    # a generator / coroutine that was started BEFORE the tracing block and is resumed and finished inside it: its call did
+    # not start while tracing was active, so either nothing is logged for it or the trace describes the call as it started
+    # (argument types of the call's arguments) - never a trace that begins in mid-life with rebound locals
+    for k in (0,):
+        M0 = mods[0]
+        g1 = M0.gen_outer(2)
+        next(g1)
+        g2 = M0.gen_mutating([])
+        next(g2)
+        c_pre = Collector()
+        with trace_calls(c_pre, k, lambda code: code.co_filename in files):
+            r1 = list(g1)
+            r2 = list(g2)
+            M0.leaf(1)
+        res.states += 1
+        res.transitions += 3
+        res.evaluations += 1
+        names_logged = [t.func.__qualname__ for t in c_pre.traces]
+        bad = [t for t in c_pre.traces if t.func.__qualname__ in ("gen_outer", "gen_mutating")]
+        if bad or "leaf" not in names_logged:
+            res.violate(Violation(ID, "arg-types", "generator-started-before-tracing", {"part": "n", "order": [0, 1], "mod": 0, "call": -3, "k": k}, f"generators advanced before the tracing block and finished inside it: logged {[(t.func.__qualname__, {n: O.show(x) for n, x in t.arg_types.items()}, t.yield_type and O.show(t.yield_type)) for t in bad]} (traces that start in mid-life); all logged: {names_logged}"))
+        res.oblige("n:generator-started-before-tracing", True)
     # a logger that fails on its i-th call, for every i: the failure is the logger's, every call is still handed to it
     # exactly once and in completion order, and the tracer forgets the call all the same
     nlogs = 0
@@ -740,6 +762,7 @@ def run(ctx: Ctx) -> Result:
     res.obligations.setdefault("n:twin-code-objects-equal", False)
     res.obligations.setdefault("n:two-sessions-with-reload", False)
     res.obligations.setdefault("n:logger-faults", False)
+    res.obligations.setdefault("n:generator-started-before-tracing", False)
     res.obligations.setdefault("u:type-collection-really-failed", False)
     return res
 
